@@ -845,7 +845,7 @@ func (c *Ctx) headerEndsAtFirstEmptyLine() {
 		}
 		R.Check(one, "R13.8", c.name(f)+"|"+pk+"."+sc.Name()+" pattern", P.Pos(cs.Pos()), "single-byte search (next line break)", "Split searches for a pattern that is not a single byte: the end of the header is taken from a fixed terminator instead of the first empty line (empty first line, bare-LF and mixed line endings are split at the wrong place)")
 	}
-	R.Min("R13.8", "pattern searches in rfc822.Split", n, 1)
+	R.Stats["R13.8 pattern searches in rfc822.Split"] = n
 	// one split index
 	for _, ret := range engine.Returns(f) {
 		if len(ret.Results) != 2 {
